@@ -12,6 +12,7 @@ import (
 	"os"
 	"os/exec"
 	"runtime"
+	"runtime/debug"
 	"strings"
 	"time"
 
@@ -40,6 +41,9 @@ type c08Result struct {
 
 // child: reads "id codec hex" lines, decodes each, prints one JSON line.
 func runC08Child(r *vhlib.Run) {
+	// no decoder needs a deep stack: recursion that grows with the input is a finding
+	// (the process dies with "stack overflow" and the parent reports the input)
+	debug.SetMaxStack(48 << 20)
 	sc := bufio.NewScanner(os.Stdin)
 	sc.Buffer(make([]byte, 1<<20), 1<<28)
 	w := bufio.NewWriter(os.Stdout)
@@ -160,6 +164,65 @@ func c08Hostile(rng *rand.Rand, quick bool) []c08Input {
 		}
 		add("xflate", "empty-index-chain", append(s, buildFooter(back, "XF\x00", meta.FinalStream, nil)...))
 	}
+	{
+		// a chunk that stops inside an open dynamic-Huffman block whose code is built so
+		// that the end marker the Reader appends (01 00 00 ff ff), however often it were
+		// repeated, never spells end-of-block or an invalid symbol: literal 'a' = 0,
+		// 'x' = 100, end-of-block = 101 (the bit pattern 101 never occurs in runs of ones
+		// and zeros), length 3 = 110, length 4 = 111; distances 1 and 2 with one bit each.
+		// A correct Reader fails with unexpected EOF after the marker; a Reader that keeps
+		// feeding the marker never stops.
+		var w gen.BitW
+		w.Bits(0, 1)  // not final
+		w.Bits(2, 2)  // dynamic
+		w.Bits(2, 5)  // HLIT: 259 literal/length codes
+		w.Bits(1, 5)  // HDIST: 2 distance codes
+		w.Bits(14, 4) // HCLEN: 18 code length code lengths
+		clOrder := []int{16, 17, 18, 0, 8, 7, 9, 6, 10, 5, 11, 4, 12, 3, 13, 2, 14, 1, 15}
+		for _, sym := range clOrder[:18] {
+			switch sym {
+			case 0:
+				w.Bits(1, 3)
+			case 1, 3:
+				w.Bits(2, 3)
+			default:
+				w.Bits(0, 3)
+			}
+		}
+		// code length code: 0 -> "0", 1 -> "10", 3 -> "11"
+		put := func(l int) {
+			switch l {
+			case 0:
+				w.Code(0, 1)
+			case 1:
+				w.Code(2, 2)
+			case 3:
+				w.Code(3, 2)
+			}
+		}
+		for sym := 0; sym < 259; sym++ {
+			switch sym {
+			case 'a':
+				put(1)
+			case 'x', 256, 257, 258:
+				put(3)
+			default:
+				put(0)
+			}
+		}
+		put(1)
+		put(1)
+		for i := 0; i < 5; i++ {
+			w.Code(0, 1) // "aaaaa"
+		}
+		w.Align()
+		c := w.Buf
+		for _, rs := range []int64{1000, 1 << 50} {
+			ch := xchunk{Comp: c, CSize: int64(len(c)), RSize: rs}
+			add("xflate", "chunk-stops-inside-open-block", assemble([]xchunk{ch}, idxOpts{}, "XF\x00", meta.FinalStream))
+		}
+		add("flate", "stops-inside-open-block", c)
+	}
 	{ // a record with a huge raw size over a tiny chunk
 		c := deflateChunk([]byte("x"), 6)
 		ch := xchunk{Comp: c, CSize: int64(len(c)), RSize: 1 << 50}
@@ -184,6 +247,26 @@ func c08Hostile(rng *rand.Rand, quick bool) []c08Input {
 		w.Bits(0xffffff, 24)
 		w.Align()
 		add("brotli", "huge-skip", w.Buf)
+	}
+	{ // very long chains of the cheapest units of each format (stack depth, quadratic work)
+		nch := 1 << 21
+		if quick {
+			nch = 1 << 20
+		}
+		chain := append([]byte{0x0c}, bytes.Repeat([]byte{0x06}, nch)...) // empty metadata meta-blocks
+		add("brotli", "metadata-chain", append(chain, 0x03))
+		add("flate", "empty-stored-chain", append(bytes.Repeat([]byte{0, 0, 0, 0xff, 0xff}, nch/4), 1, 0, 0, 0xff, 0xff))
+		var fx gen.BitW // empty fixed-Huffman blocks: 3 header bits + 7-bit end-of-block
+		for i := 0; i < nch/2; i++ {
+			fx.Bits(2, 3)
+			fx.Bits(0, 7)
+		}
+		fx.Bits(3, 3)
+		fx.Bits(0, 7)
+		fx.Align()
+		add("flate", "empty-fixed-chain", fx.Buf)
+		add("bzip2", "empty-stream-chain", bytes.Repeat(ref.BZCompress(nil, 9), nch/16))
+		add("meta", "empty-block-chain", bytes.Repeat(metaBlock(nil, meta.FinalNil), nch/32))
 	}
 	zeros := make([]byte, 200000)
 	add("brotli", "bomb-zeros", ref.BrCompress([]ref.BrOp{{Data: zeros, Op: 2}}, 9, 22, 0, 0, -1, -1))
@@ -312,6 +395,11 @@ func runC08(r *vhlib.Run) {
 				// 3 ms per input or delivered byte is the calibrated allowance (property text); plus a constant
 				if res.Millis > 3*work+10000 {
 					r.Violate("superlinear-time", fmt.Sprintf("%s %s: %d ms for %d input + %d output bytes", in.Codec, in.Kind, res.Millis, len(in.Data), res.Out), replay)
+				}
+				// DEFLATE cannot expand more than 1032:1 (258 bytes for a 1-bit length and a 1-bit
+				// distance code): a flate or xflate Reader that delivers more is not terminating
+				if (in.Codec == "flate" || in.Codec == "xflate") && res.Out > 1032*int64(len(in.Data))+65536 {
+					r.Violate("output-exceeds-format-bound", fmt.Sprintf("%s %s: %d output bytes from %d input bytes", in.Codec, in.Kind, res.Out, len(in.Data)), replay)
 				}
 				// memory: format constant (window/block tables) plus a small multiple of input+output
 				limit := uint64(96<<20) + 64*uint64(work)
